@@ -16,7 +16,7 @@ EXTENDS Scenarios
 
 TargetKinds == {"local", "aux1", "aux2", "aux3", "trans", "selfrec", "mutual", "arrayself", "mapself",
                 "auxarrayself", "anonprop", "anonitems", "anonallof", "anonsibling", "sharedparam", "sharedresp", "diamond",
-                "uptrans", "crosstrans"}
+                "uptrans", "crosstrans", "recdep"}
 Shapes      == {"prim", "object", "arrayref", "tuple", "allof", "map", "nested", "ptrarray", "ref"}
 HolderKinds == {"prop", "items", "tuple", "addprops", "additems", "allof", "alias", "opbody", "pathbody",
                 "code", "default", "sharedparam", "sharedresp", "nested", "opnested", "opitems",
@@ -26,7 +26,7 @@ AuxHolders  == {"auxresp", "auxparam", "auxpathitem"}
 SecondKinds == {"none", "code", "prop2", "same"}
 Collisions  == {"none", "exact", "case", "twoimports"}
 
-AuxTargets  == {"aux1", "aux2", "aux3", "trans", "selfrec", "mutual", "auxarrayself", "diamond", "uptrans", "crosstrans"}
+AuxTargets  == {"aux1", "aux2", "aux3", "trans", "selfrec", "mutual", "auxarrayself", "diamond", "uptrans", "crosstrans", "recdep"}
 AnonTargets == {"anonprop", "anonitems", "anonallof", "anonsibling"}
 SharedPtrTargets == {"sharedparam", "sharedresp"}
 
@@ -86,6 +86,12 @@ TargetOf(t, s) ==
     [] t = "diamond" -> [ref |-> <<"aux1", "definitions", "N_1">>, rootdefs |-> <<>>,
                        aux |-> [aux1 |-> AuxDoc([N_1 |-> Body(s, HelperIn("aux1")), N_2 |-> ObjP([N_3 |-> RefTo(<<"aux1", "definitions", "N_1">>), N_4 |-> Int]),
                                                  N_7 |-> HelperDef])], params |-> <<>>, resps |-> <<>>]
+    \* a recursive imported definition N_2 that uses the imported definition N_1 twice (N_1 is the one that may collide by name):
+    \* the recursion survives Expand, so the import, collision and de-duplication machinery runs in every mode
+    [] t = "recdep" -> [ref |-> <<"aux1", "definitions", "N_2">>, rootdefs |-> <<>>,
+                       aux |-> [aux1 |-> AuxDoc([N_2 |-> ObjP([N_3 |-> RefTo(<<"aux1", "definitions", "N_2">>), N_4 |-> RefTo(<<"aux1", "definitions", "N_1">>),
+                                                               N_5 |-> RefTo(<<"aux1", "definitions", "N_1">>)]),
+                                                 N_1 |-> Body(s, HelperIn("aux1")), N_7 |-> HelperDef])], params |-> <<>>, resps |-> <<>>]
     [] t = "arrayself" -> [ref |-> <<"root", "definitions", "N_1">>,
                        rootdefs |-> [N_1 |-> Mk([type |-> "array"], [items |-> RefTo(<<"root", "definitions", "N_1">>)])],
                        aux |-> <<>>, params |-> <<>>, resps |-> <<>>]
@@ -193,7 +199,7 @@ Op2(at, ch) == Mk(at, ch)
 RefFreeShape(s) == s \in {"prim", "object", "map"}
 ValidCombo(t, s, h, h2, c) ==
   /\ (t \in {"arrayself", "mapself", "auxarrayself"} => s = "prim")           \* the shape is fixed by the kind
-  /\ (c # "none" => t \in {"aux1", "aux2", "diamond"} /\ RefFreeShape(s))
+  /\ (c # "none" => t \in {"aux1", "aux2", "diamond", "recdep"} /\ RefFreeShape(s))
   /\ (c = "twoimports" => t # "aux3")
   /\ (c # "none" /\ t = "diamond" => RefFreeShape(s))
   /\ (s = "ptrarray" <=> FALSE) \/ (s = "ptrarray" /\ t = "anonprop")
@@ -221,5 +227,5 @@ Assemble(t, s, h, h2, c) ==
                 ELSE auxs
   IN ("root" :> root) @@ auxs2
 
-Cyclic(t) == t \in {"selfrec", "mutual", "arrayself", "mapself", "auxarrayself"}
+Cyclic(t) == t \in {"selfrec", "mutual", "arrayself", "mapself", "auxarrayself", "recdep"}
 =============================================================================
